@@ -63,7 +63,17 @@ def gen_directed(rng, syms):
     sym = rng.choice(syms)
     a = ('lit', Lit(str(rng.randrange(1, 999)), rng.choice([0, 2]), sym))
     tiny = ('bin', '/', ('lit', Lit(str(rng.randrange(1, 9)), 2, sym)), ('lit', Lit(str(rng.randrange(300, 99999)), 0, None)))
-    k = rng.randrange(6)
+    k = rng.randrange(9)
+    other = ('lit', Lit(str(rng.randrange(1, 99)), 0, rng.choice([s for s in syms if s != sym] or syms)))
+    grown = ('bin', '*', a, ('lit', Lit('1001', 3, None)))           # a * 1.001: more decimals than displayed
+    if k == 6:
+        # a balance minus an amount leaves a residue below display precision, which must survive
+        return ('bin', '*', ('bin', '-', ('bin', '+', other, grown), a), ('lit', Lit('1000', 0, None)))
+    if k == 7:
+        b = ('bin', '+', other, grown)
+        return ('bin', '==', ('bin', '+', ('bin', '-', b, a), a), b)
+    if k == 8:
+        return ('bin', '+', ('bin', '+', other, a), ('bin', '/', ('lit', Lit(str(rng.randrange(1, 9)), 2, sym)), ('lit', Lit('700', 0, None))))
     if k == 0:
         return ('bin', '/', a, tiny)
     if k == 1:
